@@ -154,3 +154,4 @@ loop('System.find_assets', 1, 'for a in self._assets',
                   '            0 <= g_pos[j] and g_pos[j] < len(rtn) and rtn[g_pos[j]] is self._assets[j]) for j in range(k))',
       'local_list': 'alive(rtn) and rtn is not self._assets'},
      modifies=['rtn[]'], index='k')
+
